@@ -363,8 +363,8 @@ class Check(PropertyCheck):
             "{plain event, completion of a pending blocking command, completion of any emitted command (stale / "
             "non-blocking / sibling / matching)}; small fixed programs x all schedules up to a length first. "
             "distinct = distinct (programs, schedule); non-trivial = some layer paused and some event was queued.")
-    budget = {"quick": 20000, "thorough": 600000}
-    time_budget = {"quick": 35, "thorough": 600}
+    budget = {"quick": 8000, "thorough": 300000}
+    time_budget = {"quick": 25, "thorough": 400}
     fingerprints = ["mitmproxy.proxy.layer:Layer.handle_event", "mitmproxy.proxy.layer:Layer._Layer__process",
                     "mitmproxy.proxy.layer:Layer._Layer__continue", "mitmproxy.proxy.layer:Layer.__init__",
                     "mitmproxy.proxy.layer:NextLayer.__init__", "mitmproxy.proxy.layer:NextLayer.handle_event",
@@ -372,7 +372,7 @@ class Check(PropertyCheck):
                     "mitmproxy.proxy.events:CommandCompleted", "mitmproxy.proxy.commands:Command"]
     trusted_base = ["CPython generator protocol (send / StopIteration / yield from) as the primitive the Gen type transcribes",
                     "non-reentrant, complete consumption of handle_event's command generator by the caller"]
-    parallel = True
+    parallel = False     # ~1500 cases/s in-process; the fork pool's IPC (long trace strings) costs more than it saves
 
     def generate(self, rng, tier):
         # small scope first: fixed programs x every schedule over a small alphabet
